@@ -151,7 +151,7 @@ pub mod reqwest {
                 final(w).net.sends == old(w).net.sends + 1,
                 final(w).net.posts == old(w).net.posts + (if self.is_post@ { 1nat } else { 0nat }),
                 final(w).net.trust_roots == old(w).net.trust_roots,
-                final(w).net.built == old(w).net.built,
+                final(w).net.built == old(w).net.built, final(w).net.waited == old(w).net.waited,
                 match r {
                     Ok(resp) => final(w).net.latest_nonce == (match resp.valid_nonce() { Some(n) => Some(n), None => old(w).net.latest_nonce })
                         && final(w).net.last_success == resp.success@ && final(w).net.last_body == resp.body@,
